@@ -71,7 +71,7 @@ def build_traces(path, tier, seed):
     for i in range(ngain):
         ftype = ["band", "low", "high"][i % 3]
         order = 1 + (i // 3) % 4
-        dt = [0.01, 0.005, 0.02][i % 3]
+        dt = [0.01, 0.005, 0.02, 0.008, 0.04, 0.0078125, 0.013][i % 7]      # incl. sampling rates that are not an even number of Hz
         nyq = 0.5 / dt
         f_low = float(nyq * 10.0 ** rng.uniform(-1.5, -0.6))       # f_low*dt in [0.016, 0.125]
         f_high = float(min(nyq * 0.8, f_low * 10.0 ** rng.uniform(0.4, 1.0)))
